@@ -70,12 +70,32 @@ func hugeShape(t *rapid.T, r int) []int {
 	return s
 }
 
+// giantShape: more than 65 536 elements (the next common threshold for parallel / blocked paths).
+func giantShape(t *rapid.T, r int) []int {
+	s := make([]int, r)
+	for i := range s {
+		s[i] = 1
+	}
+	if r == 1 {
+		s[0] = rapid.SampledFrom([]int{65537, 66049, 70001}).Draw(t, "giantLen")
+		return s
+	}
+	a := rapid.IntRange(0, r-1).Draw(t, "giantAxis")
+	b := (a + 1 + rapid.IntRange(0, r-2).Draw(t, "giantAxis2")) % r
+	s[a] = rapid.SampledFrom([]int{257, 263, 300}).Draw(t, "giantA")
+	s[b] = rapid.SampledFrom([]int{257, 259, 301}).Draw(t, "giantB")
+	return s
+}
+
 // genShape: rank in [minRank,maxRank], extents 1..maxExt (occasionally a big extent), at most
 // maxElems elements; callers that allow >= 1500 elements get a huge shape once in 600 draws.
 func genShape(minRank, maxRank, maxExt, maxElems int) *rapid.Generator[[]int] {
 	return rapid.Custom(func(t *rapid.T) []int {
 		r := rapid.IntRange(minRank, maxRank).Draw(t, "rank")
 		if maxElems >= 1500 && r >= 1 && rapid.IntRange(0, 599).Draw(t, "huge") == 0 {
+			if rapid.IntRange(0, 5).Draw(t, "giant") == 0 {
+				return giantShape(t, r)
+			}
 			return hugeShape(t, r)
 		}
 		s := make([]int, r)
@@ -331,12 +351,33 @@ func max(a, b int) int {
 	return b
 }
 
+// drawMany returns n values from draw; beyond 2 048 values 257 draws are laid out by a fixed index
+// scramble so that huge tensors do not cost one generator call per element.
+func drawMany(n int, draw func() float64) []float64 {
+	out := make([]float64, n)
+	if n <= 2048 {
+		for i := range out {
+			out[i] = draw()
+		}
+		return out
+	}
+	base := make([]float64, 257)
+	for i := range base {
+		base[i] = draw()
+	}
+	for i := range out {
+		out[i] = base[(i*7919+i/257)%257]
+	}
+	return out
+}
+
 // smallF32s: n "ordinary" float32 values in [-k, k] with 1/16 resolution (exactly representable
 // sums for small cases), used where the statement is about structure rather than rounding.
 func smallF32s(t *rapid.T, n int, k int, label string) []float32 {
+	v := drawMany(n, func() float64 { return float64(rapid.IntRange(-16*k, 16*k).Draw(t, label)) / 16 })
 	out := make([]float32, n)
 	for i := range out {
-		out[i] = float32(rapid.IntRange(-16*k, 16*k).Draw(t, label)) / 16
+		out[i] = float32(v[i])
 	}
 	return out
 }
